@@ -213,7 +213,20 @@ func (s *Server) aofshrink() {
 					values = append(values, "ex",
 						strconv.FormatFloat(ex, 'f', 1, 64))
 				}
-				values = append(values, hook.Message.Args...)
+				args := hook.Message.Args
+				if f := hook.Fence; f != nil && f.getArea && f.obj != nil {
+					// FENCE ... GET key id: the hook keeps the area it
+					// resolved when it was defined. Replayed after all the
+					// objects, the reference would resolve to whatever that
+					// id holds now (or fail), so write the area itself.
+					n := len(args) - f.getTail
+					if n >= 3 && strings.ToLower(args[n-3]) == "get" {
+						nargs := append([]string{}, args[:n-3]...)
+						nargs = append(nargs, "object", string(f.obj.AppendJSON(nil)))
+						args = append(nargs, args[n:]...)
+					}
+				}
+				values = append(values, args...)
 				// append the values to the aof buffer
 				aofbuf = append(aofbuf, '*')
 				aofbuf = append(aofbuf, strconv.FormatInt(int64(len(values)), 10)...)
